@@ -285,6 +285,10 @@ def encOracle (c : Codec) (opts : String) (failFrom : Int) (xs : List XEv) (impl
 
 /-- C01 on `rt` observations `hex|encres|events|verdict` -/
 def rtOracle (c : Codec) (opts : String) (xs : List XEv) (impl : String) : List String :=
+  -- the harness appends `|CHUNKED:<verdict>` only when byte-wise delivery of the encoder's
+  -- output gave other events / another verdict than the whole buffer
+  if (impl.splitOn "|CHUNKED:").length > 1 then
+    [s!"C01 {c.name}-roundtrip-depends-on-how-the-bytes-arrive chunked={((impl.splitOn "|CHUNKED:").getD 1 "")}"] else
   match impl.splitOn "|" with
   | [_, res, evS, verdict] =>
     let evs := expandAll xs
